@@ -3,6 +3,8 @@ package ice
 // C05 — role conflicts resolve by tie-breaker (RFC 8445 §7.3.1.1).
 
 import (
+	"net/netip"
+
 	"github.com/pion/stun/v3"
 )
 
@@ -43,6 +45,11 @@ func verifC05RoleConflict() {
 	id := verifTxID()
 	msg := verifBindingRequest(id, ctrl, remoteTB, useCand, 12345)
 	src := verifAddrPortOf(w.remotes[0])
+	unknownSrc := verifChoice(2) == 1 // the request may come from an address that is not a known remote yet
+	if unknownSrc {
+		src = netip.AddrPortFrom(netip.AddrFrom4([4]byte{30, 0, 0, 1}), 3000)
+		verifReach("unknown-source")
+	}
 
 	before := w.snap()
 	selBefore := a.selector
@@ -81,15 +88,30 @@ func verifC05RoleConflict() {
 				err := ec.GetFrom(r)
 				verifAssert(err == nil && ec.Code == stun.CodeRoleConflict, "reply-carries-487")
 				verifAssert(stun.NewShortTermIntegrity(verifLocalPwd).Check(r) == nil, "reply-is-integrity-protected-with-the-local-password")
-				verifAssert(w.conns[0].sent[0].to.String() == w.remotes[0].addr().String(), "reply-goes-to-the-request's-source")
+				verifAssert(verifMustAddrPort(w.conns[0].sent[0].to.String()) == src, "reply-goes-to-the-request's-source")
 			}
 		} else {
 			verifReach("switch")
 		}
-		// never treated as a connectivity check
-		verifAssert(verifPairsUnchanged(before, after), "conflict=>no-pair-change")
+		// never treated as a connectivity check (an unknown source may be
+		// learnt as a peer-reflexive candidate, with fresh pairs: the existing
+		// pairs and the selection are untouched either way)
+		same := len(after.pairs) >= len(before.pairs)
+		for i := range before.pairs {
+			if i < len(after.pairs) {
+				same = verifAnd(same, verifPairSnapEq(before.pairs[i], after.pairs[i]))
+			}
+		}
+		verifAssert(same, "conflict=>no-change-to-existing-pairs")
+		for i := len(before.pairs); i < len(after.pairs); i++ {
+			np := after.pairs[i]
+			verifAssert(unknownSrc && np.state != CandidatePairStateSucceeded && !np.nominated && !np.nomOnSucc, "conflict=>a-pair-learnt-from-an-unknown-source-carries-no-check-result-or-nomination")
+		}
 		verifAssert(before.selected == after.selected, "conflict=>no-selection")
-		verifAssert(before.nRemotes == after.nRemotes, "conflict=>no-candidate-added")
+		if !unknownSrc {
+			verifAssert(verifPairsUnchanged(before, after), "conflict=>no-pair-change")
+			verifAssert(before.nRemotes == after.nRemotes, "conflict=>no-candidate-added")
+		}
 	} else {
 		verifReach("no-conflict")
 		verifAssert(after.controlling == before.controlling, "no-conflict=>role-kept")
